@@ -14,6 +14,7 @@ CONSTANTS G,        \* lattice is 0..G x 0..G
           MaxV,     \* maximal number of vertices
           Relabel,  \* TRUE: Reverse/Shift are actions (all 2n relabellings are states)
           WithBalls, \* TRUE: records carry the exact ball data of C13
+          WithRadial, \* TRUE: (convex polygons) records carry exact centroid-to-boundary distances along integer directions (C14)
           EmitOn    \* TRUE: print records
 
 VARIABLES poly,     \* sequence of points: the vertex cycle as handed to the constructor
@@ -117,6 +118,28 @@ BallRecord ==
         inner |-> [min |-> {[div |-> << [q |-> << Abs(sc(poly[i])[1] * (poly[Nxt(i, n)][2] - poly[i][2]) - sc(poly[i])[2] * (poly[Nxt(i, n)][1] - poly[i][1])), D >>],
                                         [sqrt |-> [q |-> <<Dist2sq(poly[i], poly[Nxt(i, n)]), 1>>]] >>] : i \in 1..n}]]
 
-Emit == EmitOn => PrintT(ToJson(IF WithBalls THEN [Record EXCEPT !.k = "polygon"] @@ [balls |-> BallRecord] ELSE Record))
+(* ---- radial distance from the centroid (C14) --------------------------------------------------- *)
+\* The ray  c + t u  (c = cnum / D the exact centroid, u an integer direction) leaves a convex polygon through the
+\* unique edge (a, b) with  t = cross(a - c, b - a) / cross(u, b - a) > 0  and the hit point between a and b.
+\* Everything is scaled by D:  t = tn / td  with  tn = cross(D a - cnum, b - a),  td = D cross(u, b - a).
+Cr2(p, q) == p[1] * q[2] - p[2] * q[1]
+RadialHit(u) ==
+    LET D == 3 * DArea2(tris)  c == DCnum(tris)  n == Len(poly)
+        ca(i) == <<D * poly[i][1] - c[1], D * poly[i][2] - c[2]>>          \* D (a - c)
+        e(i) == Sub2(poly[Nxt(i, n)], poly[i])
+        tn(i) == Cr2(ca(i), e(i))
+        td(i) == D * Cr2(u, e(i))
+        \* position along the edge: lambda = cross(D(a-c), u) / (D cross(u, e)) in [0, 1]
+        ln(i) == Cr2(ca(i), u)
+        ld(i) == Cr2(u, e(i))
+        hits(i) == /\ td(i) # 0 /\ tn(i) * td(i) > 0
+                   /\ (IF ld(i) > 0 THEN 0 <= ln(i) /\ ln(i) <= D * ld(i) ELSE 0 >= ln(i) /\ ln(i) >= D * ld(i))
+        i0 == CHOOSE i \in 1..n : hits(i)
+    IN [u |-> u, tn |-> Abs(tn(i0)), td |-> Abs(td(i0))]
+Directions == LET D == 3 * DArea2(tris)  c == DCnum(tris) IN
+    ({<<x, y>> : x, y \in -2..2} \ {<<0, 0>>}) \cup {<<D * poly[i][1] - c[1], D * poly[i][2] - c[2]>> : i \in 1..Len(poly)}
+RadialRecord == IF (IF Ccw THEN StrictlyConvexCcw(poly) ELSE StrictlyConvexCcw(Rev(poly))) THEN {RadialHit(u) : u \in Directions} ELSE {}
+
+Emit == EmitOn => PrintT(ToJson(IF WithRadial THEN Record @@ [radial |-> RadialRecord] ELSE IF WithBalls THEN [Record EXCEPT !.k = "polygon"] @@ [balls |-> BallRecord] ELSE Record))
 ViewPoly == poly      \* emission runs identify states that differ only in the triangulation
 =============================================================================
